@@ -70,6 +70,14 @@ Theorem C11_mask_table : forall ones, 1 <= ones <= 32 -> mask ones = 2 ^ 32 - 2 
 Proof. exact mask_pmask. Qed.
 Print Assumptions C11_mask_table.
 
+(** the statement is not satisfied by everything: Contains as it was at the pinned commit
+    (length test instead of To4) violates it — the witness is the replayable finding, now fixed *)
+Theorem C11_pinned_refuted :
+  exists ops ip, to4 ip <> None /\ contains_pinned (run ops) ip <> spec_contains ops ip
+                 /\ contains (run ops) ip = spec_contains ops ip.
+Proof. exact pinned_refuted. Qed.
+Print Assumptions C11_pinned_refuted.
+
 (* ---- non-vacuity: concrete histories, evaluated on the model ---- *)
 
 Definition net (a b c d n : N) : cidr := mkCidr [a; b; c; d] (bytes_of_u32 (pmask n)).
